@@ -40,11 +40,15 @@ def expand(node: Node):
     references = list()
     node.find_all_descendants(names.REFERENCES, references)
     ids = _register_ids(node)
+    # Resolve every reference before changing anything, so that a dangling
+    # reference leaves the tree untouched
+    resolved = list()
     for reference in references:
         if reference.content not in ids:
             msg = f"ID not found for REFERENCE '{reference}'"
             raise ValueError(msg)
-        source_node = ids[reference.content]
+        resolved.append((reference, ids[reference.content]))
+    for reference, source_node in resolved:
         destination_node = reference.parent
         destination_node.remove_child(reference)
         Node.delete_node_instance(reference.id)
